@@ -27,12 +27,22 @@ RULE = ('one case = one request (single, batch or notification) sent by the real
         'per attempt, begin from every tracer in configuration order, then exactly one completion from every tracer in '
         'configuration order (end with the returned response / None, error with the very exception object), one trace '
         'context per attempt, the caller-supplied context on every attempt, and the exception reaching the caller being '
-        'the last attempt\'s. Distinct = distinct (configuration, consumed outcome sequence).')
+        'the last attempt\'s. The tracers come in ten flavours - among them tracers that are falsy when the client is constructed '
+        '(a Tracer that is also an empty dict / list, __len__ -> 0, __bool__ -> False) - and are handed over in nine re-iterable '
+        'containers (list, tuple, deque, dict views, UserList, sequence-protocol-only, Iterable-only, tuple subclass). '
+        'Batch-reuse cases: ONE batch object (client.batch wrapper, or a caller-built BatchRequest) makes 2..3 round trips and '
+        'grows in between through add / __call__ / proxy / notify / subscription resp. constructor / append / extend, starting '
+        'from notifications only or from calls; each round trip is judged like any attempt, `end` carrying nothing exactly when '
+        'the batch as sent holds notifications only. Distinct = distinct (configuration, consumed outcome sequence).')
 ASSUMPTIONS = [
     'probe tracers do not raise, except in the raising-tracer cases: there the LAST tracer raises in a completion handler and only '
     '"one begin, exactly one completion per tracer" is judged',
     'with the default (library-created) trace context only "begin and completion of one attempt share the context object" is judged',
     'attempts are delimited by transport invocations: every outcome in the script reaches or passes the transport',
+    'tracers are handed over in RE-ITERABLE containers only; one-shot iterables (generators) are reported, not generated',
+    'a configured tracer is configured whatever bool(tracer) / len(tracer) say',
+    'a batch is a notification exactly when, at the moment of the send, none of its elements has an id; elements are added through '
+    'the public adding entry points with re-iterable arguments (BatchRequest.extend of a one-shot iterator is reported, not generated)',
 ]
 SHARDS = {'quick': 4, 'thorough': 16}
 TIMEOUT = {'quick': 400, 'thorough': 2400}
@@ -70,7 +80,21 @@ FLOORS = {'*': {**{f'last:{o}': 5 for o in OUTCOMES}, 'real-cancellation': 5, 'm
                 'client:sync': 200, 'client:async': 200, 'tracers:0': 20, 'tracers:1': 50, 'tracers:2': 50, 'tracers:3': 50,
                 'ctx:supplied': 100, 'ctx:default': 100, 'kind:single': 100, 'kind:batch': 50, 'kind:notification': 30,
                 'attempts>=2': 100, 'concurrent-requests': 100, 'tracer-style:class': 100, 'tracer-style:instance': 100,
-                'tracer-style:mixed': 100, 'tracer-style:equal': 100, 'raising-tracer': 50, 'tracers-given-as:deque': 50, 'tracers-given-as:dict-values': 50, 'notification-answered-with-a-body:strict': 20, 'notification-answered-with-a-body:non-strict': 20, 'called-while-handling-another-exception': 100}}
+                'tracer-style:mixed': 100, 'tracer-style:equal': 100, 'raising-tracer': 50, 'tracers-given-as:deque': 50, 'tracers-given-as:dict-values': 50, 'notification-answered-with-a-body:strict': 20, 'notification-answered-with-a-body:non-strict': 20, 'called-while-handling-another-exception': 100,
+                # round 11: tracers that are falsy when the client is constructed; tracers handed over in every re-iterable container
+                **{f'falsy-tracer:{s}': 300 for s in ('falsy-dict', 'falsy-list', 'falsy-len', 'falsy-len-zero', 'falsy-bool')},
+                'tracer-style:container-non-empty': 300,
+                **{f'tracers-given-as:{c}': 300 for c in ('list', 'tuple', 'user-list', 'sequence-protocol-only', 'iterable-only',
+                                                           'tuple-subclass', 'dict-keyed-by-id')},
+                # round 11: one batch object, several round trips, grown in between through every adding entry point
+                'batch-reuse': 500, 'batch-reuse:holder:wrapper': 200, 'batch-reuse:holder:request': 200,
+                'batch-reuse:add-via:add': 100, 'batch-reuse:add-via:dunder': 100, 'batch-reuse:add-via:proxy': 100,
+                'batch-reuse:add-via:notify': 200, 'batch-reuse:add-via:getitem': 50, 'batch-reuse:add-via:constructor': 100,
+                'batch-reuse:add-via:append': 200, 'batch-reuse:add-via:extend': 200, 'batch-reuse:add-via:extend-tuple': 100,
+                'batch-reuse:calls-added-after-a-notifications-only-round-trip': 300, 'batch-reuse:notifications-added-to-calls': 300,
+                'batch-reuse:resent-unchanged': 100, 'batch-reuse:retry': 200, 'batch-reuse:state-read-between-rounds': 200,
+                'batch-reuse:via:call': 200, 'batch-reuse:via:proxy-call': 100, 'batch-reuse:via:proxy-dunder': 100,
+                'batch-reuse:via:send': 500, 'kind:batch-notifications-only': 300}}
 
 
 class Abort(BaseException):
@@ -124,8 +148,132 @@ class RecEqual(Rec):
         return 7
 
 
+class RecFalsyDict(Rec, dict):
+    """a gauge-style tracer that IS the dict of the attempts in flight: empty - and therefore falsy - whenever nothing is in
+    flight, in particular when the client is constructed"""
+
+    def __init__(self, idx, log):
+        dict.__init__(self)
+        Rec.__init__(self, idx, log)
+
+    def on_request_begin(self, trace_context, request):
+        Rec.on_request_begin(self, trace_context, request)
+        self[id(trace_context)] = request
+
+    def on_request_end(self, trace_context, request, response):
+        Rec.on_request_end(self, trace_context, request, response)
+        self.pop(id(trace_context), None)
+
+    def on_error(self, trace_context, request, error):
+        Rec.on_error(self, trace_context, request, error)
+        self.pop(id(trace_context), None)
+
+
+class RecFalsyList(Rec, list):
+    """a collector that IS the list of the completed attempts: falsy until the first completion, truthy afterwards"""
+
+    def __init__(self, idx, log, initial=()):
+        list.__init__(self, initial)
+        Rec.__init__(self, idx, log)
+
+    def on_request_end(self, trace_context, request, response):
+        Rec.on_request_end(self, trace_context, request, response)
+        self.append(('end', request))
+
+    def on_error(self, trace_context, request, error):
+        Rec.on_error(self, trace_context, request, error)
+        self.append(('error', request))
+
+
+class RecFalsyLen(Rec):
+    """len(tracer) = number of attempts it has seen begin (0 when the client is constructed)"""
+
+    def __init__(self, idx, log):
+        super().__init__(idx, log)
+        self.seen = 0
+
+    def __len__(self):
+        return self.seen
+
+    def on_request_begin(self, trace_context, request):
+        super().on_request_begin(trace_context, request)
+        self.seen += 1
+
+
+class RecFalsyLenZero(Rec):
+    """a tracer whose __len__ is 0 for good (a sized facade over a store that lives elsewhere)"""
+
+    def __len__(self):
+        return 0
+
+
+class RecFalsyBool(Rec):
+    """a tracer whose __bool__ says 'disabled' - that is the tracer's own business, it is configured all the same"""
+
+    def __bool__(self):
+        return False
+
+
+TRACER_STYLES = {'class': Rec, 'instance': RecInstance, 'mixed': RecMixed, 'equal': RecEqual,
+                 'falsy-dict': RecFalsyDict, 'falsy-list': RecFalsyList, 'falsy-len': RecFalsyLen, 'falsy-len-zero': RecFalsyLenZero,
+                 'falsy-bool': RecFalsyBool,
+                 'container-non-empty': lambda idx, log: RecFalsyList(idx, log, initial=[('configured', idx)])}
+STYLE_ROTATION = ('class', 'instance', 'class', 'mixed', 'equal', 'falsy-dict', 'falsy-len', 'class', 'falsy-list', 'falsy-bool',
+                  'container-non-empty', 'falsy-len-zero')
+
+
 def make_tracer(style, idx, log):
-    return {'class': Rec, 'instance': RecInstance, 'mixed': RecMixed, 'equal': RecEqual}[style](idx, log)
+    return TRACER_STYLES[style](idx, log)
+
+
+class SeqOnly:
+    """iterable through the old sequence protocol only (__getitem__ + __len__)"""
+
+    def __init__(self, items):
+        self._items = list(items)
+
+    def __getitem__(self, i):
+        return self._items[i]
+
+    def __len__(self):
+        return len(self._items)
+
+
+class IterOnly:
+    """a re-iterable that is nothing but an Iterable: every iter() starts over; no length, no indexing"""
+
+    def __init__(self, items):
+        self._items = list(items)
+
+    def __iter__(self):
+        return iter(list(self._items))
+
+
+class TupleSub(tuple):
+    pass
+
+
+def _containers():
+    import collections
+    return {'list': list, 'tuple': tuple, 'deque': collections.deque,
+            'dict-values': lambda ts: {i: t for i, t in enumerate(ts)}.values(),
+            'dict-keyed-by-id': lambda ts: {id(t): t for t in ts}.values(),
+            'user-list': collections.UserList, 'sequence-protocol-only': SeqOnly, 'iterable-only': IterOnly, 'tuple-subclass': TupleSub}
+
+
+# REPORTED: ONE-SHOT iterables (a generator, iter([...]), map(...)) are left out: `tracers: Iterable[Tracer]` is stored as given
+# and iterated anew for every event, so on the unchanged tree the tracers of a generator see the first `begin` and nothing
+# ever after (begin without completion).
+CONTAINERS = ('list', 'tuple', 'deque', 'dict-values', 'user-list', 'sequence-protocol-only', 'iterable-only', 'tuple-subclass',
+              'dict-keyed-by-id')
+
+
+def configure(ctx, tracers, container):
+    """hands the tracers over the way a caller might: in some re-iterable container, the library's own LoggingTracer riding along"""
+    from pjrpc.client.tracer import LoggingTracer
+    tracers = list(tracers) + [LoggingTracer()]
+    ctx.hit('tracers-given-as:' + container)
+    return _containers()[container](tracers)
 
 
 class _TimeShim:
@@ -204,21 +352,21 @@ class Unrelated(Exception):
 
 
 def run_case(ctx, n_tracers, attempts, script, kind, supplied_ctx, is_async, inside_except=False, tracer_style='class',
-             strict=True, notif_body=None):
+             strict=True, notif_body=None, container=None):
     ck = 'async' if is_async else 'sync'
     log = []
     tracers = [make_tracer(tracer_style if (i % 2 == 0 or tracer_style == 'equal') else 'class', i, log) for i in range(n_tracers)]
     ctx.hit('tracer-style:' + tracer_style)
+    falsy = tracer_style.startswith('falsy')
     if n_tracers:
+        if falsy:
+            ctx.hit('falsy-tracer:' + tracer_style)
+            if any(bool(t) for i, t in enumerate(tracers) if i % 2 == 0):
+                raise AssertionError('harness: a falsy-style tracer is truthy at construction time')
         # the library's own LoggingTracer rides along (it records nothing here, it must not disturb the others), and the
-        # tracers are handed over in some container or other: a list, a tuple, a deque, a dict view
-        from pjrpc.client.tracer import LoggingTracer
-        import collections
-        tracers = tracers + [LoggingTracer()]
-        container = ('list', 'tuple', 'deque', 'dict-values')[(n_tracers + len(script)) % 4]
-        ctx.hit('tracers-given-as:' + container)
-        tracers = {'list': list, 'tuple': tuple, 'deque': collections.deque,
-                   'dict-values': lambda ts: {i: t for i, t in enumerate(ts)}.values()}[container](tracers)
+        # tracers are handed over in some container or other: a list, a tuple, a deque, a dict view, a bare Iterable, ...
+        container = container or ('list', 'tuple', 'deque', 'dict-values')[(n_tracers + len(script)) % 4]
+        tracers = configure(ctx, tracers, container)
     if kind == 'notification' and notif_body is not None:
         ctx.hit('notification-answered-with-a-body:' + ('strict' if strict else 'non-strict'))
     sc = Script(script, log)
@@ -311,10 +459,11 @@ def run_case(ctx, n_tracers, attempts, script, kind, supplied_ctx, is_async, ins
         ctx.hit('attempts>=2')
         if n_tracers == 3:
             ctx.hit('multi-attempt-3-tracers')
-    cls = (n_tracers, attempts, consumed, kind, supplied_ctx, ck, inside_except, tracer_style, strict, notif_body)
+    cls = (n_tracers, attempts, consumed, kind, supplied_ctx, ck, inside_except, tracer_style, strict, notif_body, container)
     fam = f'{kind}:{ck}:t{n_tracers}' + (':inside-except' if inside_except else '')
     wit = dict(tracers=n_tracers, retry_attempts=attempts, script=script, kind=kind, caller_supplied_context=supplied_ctx,
                client=ck, outcome=[st, out], tracer_handlers=tracer_style, strict=strict, notification_body=notif_body,
+               tracers_given_as=container,
                events=[(e[0], e[1]) if e[0] == 'transport' else (e[0], e[1], type(e[4]).__name__) for e in log])
 
     # ---- the automaton over the event log
@@ -428,7 +577,8 @@ def run_case(ctx, n_tracers, attempts, script, kind, supplied_ctx, is_async, ins
             elif last == 'cancel-task' and not isinstance(out, asyncio.CancelledError):
                 problem = 'cancellation-did-not-propagate'
     if problem:
-        ctx.violation(problem + (':multi-attempt' if n_attempts > 1 else ''), fam, cls, model_attempts=n_attempts, **wit)
+        ctx.violation(problem + (':multi-attempt' if n_attempts > 1 else '') + (':falsy-tracer-configured' if falsy and n_tracers else ''),
+                      fam, cls, model_attempts=n_attempts, **wit)
         return
     ctx.ok(fam + ':' + consumed[-1], cls, sample=wit)
 
@@ -575,7 +725,278 @@ def run_raising_tracer(ctx, n_tracers, where, outcome, kind, is_async):
     ctx.ok(fam, cls, sample=wit)
 
 
+def _peer(text):
+    """a peer that answers every element that has an id, and says nothing when there is none"""
+    data = json.loads(text)
+    items = data if isinstance(data, list) else [data]
+    replies = [{'jsonrpc': '2.0', 'id': it['id'], 'result': f"r{it['id']}"} for it in items if 'id' in it]
+    if not replies:
+        return ''
+    return json.dumps(replies if isinstance(data, list) else replies[0])
+
+
+def run_batch_reuse(ctx, holder, rounds, n_tracers, is_async, supplied_ctx, transport_flavour, peek=False, strict=True,
+                    tracer_style='class', container='list', retry_round=None):
+    """ONE batch object makes several round trips, and grows in between through the adding entry points.
+    holder 'wrapper': b = client.batch; elements through b.add / b(...) / b.proxy.<m>(...) / b.notify / b[...]; sent by b.call(),
+    b.proxy.call(), b.proxy() or the subscription itself. holder 'request': a BatchRequest built by the caller; elements through
+    the constructor / append / extend; sent by client.batch.send(request).
+    rounds: [{'adds': [[how, 'call' | 'notification'], ...], 'via': how the round trip is made}, ...]
+    Every round trip is an attempt like any other: begin and one completion per tracer, and the completion is `end` with
+    nothing exactly when the batch - as it is at THAT send - consists of notifications only, with the response otherwise."""
+    ck = 'async' if is_async else 'sync'
+    log = []
+    tracers = [make_tracer(tracer_style if (i % 2 == 0 or tracer_style == 'equal') else 'class', i, log) for i in range(n_tracers)]
+    falsy = tracer_style.startswith('falsy')
+    told = []
+    raised = {}
+    box = {'fail_next': False}
+
+    def transport(text, is_notification, kwargs):
+        log.append(('transport', len(told)))
+        told.append(bool(is_notification))
+        if box['fail_next']:
+            box['fail_next'] = False
+            raised[len(told) - 1] = ConnectionError(f'send{len(told) - 1}')
+            raise raised[len(told) - 1]
+        body = _peer(text)
+        if transport_flavour == 'drops-the-reply-when-told-notification':     # what the bundled backends do
+            return None if is_notification else body
+        return body or None                                                   # hands back whatever the peer sent
+
+    strategy = retry_mod.RetryStrategy(backoff=retry_mod.PeriodicBackoff(attempts=1, interval=0.0), codes={2001},
+                                       exceptions={ConnectionError}) if retry_round is not None else None
+    cls_ = clientside.AsyncClient if is_async else clientside.SyncClient
+    client = cls_(transport, tracers=configure(ctx, tracers, container), retry_strategy=strategy, strict=strict)
+    ctx.hit('batch-reuse')
+    ctx.hit('batch-reuse:holder:' + holder)
+    ctx.hit('client:' + ck)
+    ctx.hit(f'tracers:{n_tracers}')
+    ctx.hit('tracer-style:' + tracer_style)
+    if falsy and n_tracers:
+        ctx.hit('falsy-tracer:' + tracer_style)
+        if any(bool(t) for i, t in enumerate(tracers) if i % 2 == 0):
+            raise AssertionError('harness: a falsy-style tracer is truthy at construction time')
+    cls = ('batch-reuse', holder, json.dumps(rounds), n_tracers, ck, supplied_ctx, transport_flavour, peek, strict, tracer_style,
+           container, retry_round)
+    fam = f'batch-reuse:{holder}:{ck}:t{n_tracers}'
+    wit = dict(holder=holder, rounds=rounds, tracers=n_tracers, client=ck, caller_supplied_context=supplied_ctx,
+               transport=transport_flavour, state_read_between_rounds=peek, strict=strict, tracer_handlers=tracer_style,
+               tracers_given_as=container, retry_in_round=retry_round, per_round=[])
+
+    batch = client.batch if holder == 'wrapper' else None
+    req = None
+    next_id = [100]
+    n_calls = n_notifs = 0
+    sent_as_notifications_only = False
+    for ridx, rnd in enumerate(rounds):
+        # ---- grow
+        new = []
+        for how, what in rnd['adds']:
+            ctx.hit('batch-reuse:add-via:' + how)
+            if holder == 'wrapper':
+                if what == 'notification':
+                    batch.notify('n', ridx)
+                elif how == 'add':
+                    batch.add('m', ridx)
+                elif how == 'dunder':
+                    batch('m', ridx)
+                else:
+                    batch.proxy.m(ridx)
+            else:
+                next_id[0] += 1
+                element = v20.Request('m', [ridx], id=next_id[0]) if what == 'call' else v20.Request('n', [ridx])
+                if how == 'constructor':
+                    new.append(element)
+                elif how == 'append':
+                    if req is None:
+                        req = v20.BatchRequest(*new)
+                    req.append(element)
+                elif how == 'extend-tuple':
+                    if req is None:
+                        req = v20.BatchRequest(*new)
+                    req.extend((element,))
+                else:
+                    if req is None:
+                        req = v20.BatchRequest(*new)
+                    req.extend([element])
+            n_calls += what == 'call'
+            n_notifs += what == 'notification'
+        if holder == 'request' and req is None:
+            req = v20.BatchRequest(*new)
+        via = rnd['via']
+        if via == 'getitem':
+            n_calls += 2
+            ctx.hit('batch-reuse:add-via:getitem')
+        if not rnd['adds'] and via != 'getitem' and ridx:
+            ctx.hit('batch-reuse:resent-unchanged')
+        only_notifications = n_calls == 0
+        grown = sent_as_notifications_only and not only_notifications
+        if grown:
+            ctx.hit('batch-reuse:calls-added-after-a-notifications-only-round-trip')
+        if ridx and n_notifs and not only_notifications and any(w == 'notification' for _, w in rnd['adds']):
+            ctx.hit('batch-reuse:notifications-added-to-calls')
+        if peek and holder == 'request':
+            # looking at the public state of the request object between the round trips changes nothing
+            ctx.hit('batch-reuse:state-read-between-rounds')
+            _ = (req.is_notification, len(req), list(req), repr(req))
+        # ---- one round trip
+        del log[:]
+        first_send = len(told)
+        tctx = SimpleNamespace(round=ridx) if supplied_ctx else None
+        retried_here = retry_round == ridx
+        if retried_here:
+            box['fail_next'] = True
+            ctx.hit('batch-reuse:retry')
+        if holder == 'request':
+            op = lambda: client.batch.send(req, _trace_ctx=tctx)
+        elif via == 'getitem':
+            tctx = None                 # the subscription takes no context
+            op = lambda: batch[('g', 1), ('g', 2)]
+        elif via == 'proxy-call':
+            op = lambda: batch.proxy.call(tctx)
+        elif via == 'proxy-dunder':
+            op = lambda: batch.proxy(tctx)
+        else:
+            op = lambda: batch.call(tctx)
+        ctx.hit('batch-reuse:via:' + via)
+        st, out = clientside.outcome_of(op, is_async)
+        events = list(log)
+        wit['per_round'].append(dict(round=ridx, calls_in_batch=n_calls, notifications_in_batch=n_notifs,
+                                     transport_was_told_is_notification=told[first_send:], outcome=[st, out],
+                                     events=[(e[0], e[1]) if e[0] == 'transport' else (e[0], e[1], type(e[4]).__name__) for e in events]))
+        ctx.hit('kind:batch-notifications-only' if only_notifications else 'kind:batch')
+        # ---- judge the round trip: attempts, in order
+        want = (['error'] if retried_here else []) + ['end']
+        problem = None
+        idx = 0
+        last_payload = None
+        for a, want_kind in enumerate(want):
+            block_ctx = block_req = None
+            for t in range(n_tracers):
+                if idx >= len(events) or events[idx][0] == 'transport' or events[idx][:2] != (t, 'begin'):
+                    problem = 'begin-missing-or-out-of-order'
+                    break
+                if t == 0:
+                    block_ctx, block_req = events[idx][2], events[idx][3]
+                elif events[idx][2] is not block_ctx:
+                    problem = 'tracers-of-one-attempt-got-different-contexts'
+                    break
+                if events[idx][3] is not block_req or (holder == 'request' and block_req is not req):
+                    problem = 'begin-carries-a-different-request'
+                    break
+                idx += 1
+            if problem:
+                break
+            if idx >= len(events) or events[idx][0] != 'transport':
+                problem = 'no-transport-call-between-begin-and-completion'
+                break
+            idx += 1
+            payload0 = None
+            for t in range(n_tracers):
+                if idx >= len(events) or events[idx][0] == 'transport' or events[idx][0] != t:
+                    problem = 'completion-missing-or-out-of-order'
+                    break
+                e = events[idx]
+                if e[1] == 'begin':
+                    problem = 'completion-missing-before-next-begin'
+                    break
+                if e[1] != want_kind:
+                    problem = f"completion-kind-wrong:{e[1]}-after-{'ok' if want_kind == 'end' else 'exc-listed'}"
+                    break
+                if e[2] is not block_ctx:
+                    problem = 'completion-with-a-different-context-than-begin'
+                    break
+                if tctx is not None and e[2] is not tctx:
+                    problem = 'caller-supplied-context-not-used'
+                    break
+                if t == 0:
+                    payload0 = e[4]
+                elif e[4] is not payload0:
+                    problem = 'tracers-of-one-attempt-got-different-payloads'
+                    break
+                idx += 1
+            if problem:
+                break
+            if n_tracers:
+                if want_kind == 'error':
+                    if payload0 is not raised.get(first_send + a):
+                        problem = 'error-carries-a-different-exception-object'
+                elif only_notifications:
+                    if payload0 is not None:
+                        problem = 'end-of-notification-carries-a-response'
+                elif payload0 is None:
+                    problem = 'end-without-the-response'
+                elif not getattr(payload0, 'is_success', False):
+                    problem = 'end-carries-a-different-response'
+                last_payload = payload0
+            if problem:
+                break
+        if not problem and n_tracers and idx != len(events):
+            rest = events[idx]
+            problem = 'extra-events-after-last-attempt:' + (rest[1] if rest[0] != 'transport' else 'transport')
+        if not problem and not n_tracers:
+            if any(e[0] != 'transport' for e in events):
+                problem = 'events-from-unconfigured-tracer'
+            elif len(events) != len(want):
+                problem = 'attempt-count-differs-from-retry-model'
+        if not problem:
+            if st != 'ret':
+                problem = f'returned-attempt-raised-{type(out).__name__}'
+            elif only_notifications and out is not None:
+                problem = 'notification-returned-something'
+            elif not only_notifications and holder == 'request' and n_tracers and out is not last_payload:
+                problem = 'end-carries-a-different-response'
+        if problem:
+            ctx.violation(problem + ':batch-object-reused' + (':grown-after-a-notifications-only-round-trip' if grown else '')
+                          + (':falsy-tracer-configured' if falsy and n_tracers else ''), fam, cls, failing_round=ridx, **wit)
+            return
+        if st != 'ret':
+            break
+        sent_as_notifications_only = sent_as_notifications_only or only_notifications
+    ctx.ok(fam, cls, sample=wit)
+
+
+# REPORTED: BatchRequest.extend(<one-shot iterator>) is left out: extend() takes an Iterable but walks it twice (ids first, then
+# the elements), so on the unchanged tree the elements of a generator are registered by id and never added - the batch stays
+# "notifications only" and the call is silently not sent. Not a tracer matter; only re-iterable arguments are generated here.
+W_INIT = [[['notify', 'notification']], [['notify', 'notification'], ['notify', 'notification']], [['add', 'call']],
+          [['proxy', 'call'], ['notify', 'notification']], [['dunder', 'call']]]
+W_ADDS = [[], [['add', 'call']], [['dunder', 'call']], [['proxy', 'call']], [['notify', 'notification']],
+          [['add', 'call'], ['notify', 'notification']], [['notify', 'notification'], ['proxy', 'call']], 'getitem']
+R_INIT = [[['constructor', 'notification']], [['constructor', 'notification'], ['append', 'notification']],
+          [['extend', 'notification'], ['extend-tuple', 'notification']], [['constructor', 'call']],
+          [['append', 'call'], ['extend', 'notification']]]
+R_ADDS = [[], [['append', 'call']], [['extend', 'call']], [['extend-tuple', 'call']], [['append', 'notification']],
+          [['extend', 'notification']], [['extend', 'call'], ['extend-tuple', 'notification']], [['append', 'notification'], ['append', 'call']]]
+
+
+def gen_batch_reuse(ctx):
+    k = 0
+    reps = ctx.pick(2, 12)
+    vias = ('call', 'proxy-call', 'call', 'proxy-dunder')
+    for holder, inits, adds in (('wrapper', W_INIT, W_ADDS), ('request', R_INIT, R_ADDS)):
+        for init in inits:
+            for second in adds:
+                for third in [None] + adds:
+                    for _ in range(reps):
+                        k += 1
+                        rounds = []
+                        for j, a in enumerate([init, second] + ([third] if third is not None else [])):
+                            if a == 'getitem':
+                                rounds.append({'adds': [], 'via': 'getitem'})
+                            else:
+                                rounds.append({'adds': a, 'via': 'send' if holder == 'request' else vias[(k + j) % 4]})
+                        yield 'batch-reuse', dict(
+                            holder=holder, rounds=rounds, n_tracers=(1, 2, 3, 1, 0, 2, 3)[k % 7], is_async=bool(k % 2),
+                            supplied_ctx=bool((k // 2) % 2),
+                            transport_flavour=('drops-the-reply-when-told-notification', 'hands-back-what-the-peer-sent')[(k // 4) % 2],
+                            peek=bool((k // 3) % 2), strict=bool((k // 5) % 3), tracer_style=STYLE_ROTATION[(k // 3) % len(STYLE_ROTATION)],
+                            container=CONTAINERS[k % len(CONTAINERS)], retry_round=(None, 1, None, 0, 2)[k % 5])
+
+
 def gen(ctx):
+    yield from gen_batch_reuse(ctx)
     rng = ctx.rng
     deep = ctx.thorough
     full = True
@@ -618,8 +1039,9 @@ def gen(ctx):
                     yield 'case', dict(n_tracers=(1, 2, 3, 0, 3, 1, 2)[k % 7], attempts=attempts, script=list(script), kind=kind,
                                        supplied_ctx=bool((k // 2) % 2), is_async=is_async,
                                        inside_except=(k % 4 == 0 and 'cancel-task' not in script),
-                                       tracer_style=('class', 'instance', 'class', 'mixed', 'equal')[(k // 3) % 5], **extra)
+                                       tracer_style=STYLE_ROTATION[(k // 3) % len(STYLE_ROTATION)],
+                                       container=CONTAINERS[(k // 2) % len(CONTAINERS)], **extra)
 
 
 NOTIF_BODIES = [None, '', '{"jsonrpc": "2.0", "id": null, "result": 1}', 'garbage', '{"jsonrpc": "2.0", "id": 7, "error": {"code": 1, "message": "m"}}']
-KINDS = {'case': run_case, 'concurrent': run_concurrent, 'raising-tracer': run_raising_tracer}
+KINDS = {'case': run_case, 'concurrent': run_concurrent, 'raising-tracer': run_raising_tracer, 'batch-reuse': run_batch_reuse}
